@@ -134,6 +134,9 @@ func (c *Conn) CloseNow() (err error) {
 	defer errd.Wrap(&err, "failed to immediately close WebSocket")
 
 	if !c.casClosing() {
+		// Someone else is closing the connection, possibly still in the close
+		// handshake. Do not wait for that: close now.
+		c.close()
 		err = c.waitGoroutines()
 		if err != nil {
 			return err
